@@ -86,6 +86,78 @@ fn pp_time(t: Time, c: &Cfg, cls: &str) -> Value {
     json!({"op":"pp_time","cls":cls,"tod":jtime(t),"prec":c.prec,"text":codes(&text),"s":text,"re":re})
 }
 
+/// Texts of the RFC 3339 grammar (as extended by jiff's documentation: signed six-digit
+/// years, 'T' / 't' / ' ', 1..9 fraction digits, 'Z' / 'z' / numeric offsets with optional
+/// seconds), not produced by jiff's printer; the trace spec reads them independently.
+fn gen_rfc3339(rng: &mut Rng, with_offset: bool) -> String {
+    let y = match rng.next() % 5 {
+        0 => rng.range(-9999, 9999),
+        1 => *rng.pick(&[-9999i64, -1, 0, 1, 1969, 1970, 2024, 9999]),
+        _ => rng.range(1800, 2200),
+    };
+    let m = rng.range(1, 12);
+    let dim = [31, if (y % 4 == 0 && y % 100 != 0) || y % 400 == 0 { 29 } else { 28 }, 31, 30, 31, 30, 31, 31, 30, 31, 30, 31][(m - 1) as usize];
+    let d = match rng.next() % 4 {
+        0 => dim,
+        1 => 1,
+        _ => rng.range(1, dim),
+    };
+    let mut s = if (0..=9999).contains(&y) && rng.chance(3, 4) {
+        format!("{y:04}")
+    } else {
+        format!("{}{:06}", if y < 0 { '-' } else { '+' }, y.abs())
+    };
+    if s == "-000000" {
+        s = "+000000".into();
+    }
+    s.push_str(&format!("-{m:02}-{d:02}"));
+    s.push(*rng.pick(&['T', 't', ' ', 'T']));
+    let hh = if rng.chance(1, 3) { *rng.pick(&[0i64, 12, 23]) } else { rng.range(0, 23) };
+    s.push_str(&format!("{:02}:{:02}:{:02}", hh, rng.range(0, 59), rng.range(0, 59)));
+    if rng.chance(1, 2) {
+        let nd = 1 + rng.next() % 9;
+        s.push('.');
+        for _ in 0..nd {
+            s.push((b'0' + (rng.next() % 10) as u8) as char);
+        }
+    }
+    if with_offset {
+        match rng.next() % 6 {
+            0 => s.push('Z'),
+            1 => s.push('z'),
+            2 => {
+                let o = rng.range(0, 25 * 60 + 59);
+                s.push_str(&format!("{}{:02}:{:02}:{:02}", if rng.chance(1, 2) { '-' } else { '+' }, o / 60, o % 60, rng.range(0, 59)));
+            }
+            _ => {
+                let o = match rng.next() % 3 {
+                    0 => rng.range(0, 14 * 60),
+                    1 => *rng.pick(&[0i64, 30, 330, 345, 25 * 60 + 59]),
+                    _ => rng.range(0, 25 * 60 + 59),
+                };
+                s.push_str(&format!("{}{:02}:{:02}", if rng.chance(1, 2) { '-' } else { '+' }, o / 60, o % 60));
+            }
+        }
+    }
+    s
+}
+
+fn rd_text(rng: &mut Rng, with_offset: bool) -> Value {
+    static PARSER: DateTimeParser = DateTimeParser::new();
+    let text = gen_rfc3339(rng, with_offset);
+    if with_offset {
+        let r = guard(|| PARSER.parse_timestamp(&text));
+        json!({"op":"rd_ts","cls":"grammar","text":codes(&text),"s":text,"re":jts(&r)})
+    } else {
+        let re = match guard(|| PARSER.parse_datetime(&text)) {
+            Ok(Ok(d)) => jdt(d),
+            Ok(Err(_)) => json!([]),
+            Err(_) => json!([-1]),
+        };
+        json!({"op":"rd_dt","cls":"grammar","text":codes(&text),"s":text,"re":re})
+    }
+}
+
 pub fn run_c09(a: &Args) {
     let mut out = Out::new(&a.out, "c09", 12_000);
     let mut rng = Rng::new(a.seed, 9);
@@ -132,6 +204,10 @@ pub fn run_c09(a: &Args) {
         for t in [Time::MIN, Time::MAX] {
             out.emit(pp_dt(DateTime::from_parts(d, t), &default, "limit"));
         }
+    }
+    // the parser on texts of the grammar that the printer never produces
+    for i in 0..(if quick { 6000 } else { 200_000 }) {
+        out.emit(rd_text(&mut rng, i % 3 != 0));
     }
     out.finish();
 }
